@@ -2,6 +2,7 @@ import BigtoolsModel.FileOf
 import BigtoolsModel.Codec
 import BigtoolsModel.Compressed
 import BigtoolsModel.AtomsGen
+import BigtoolsModel.OverlapsGen
 /-! # C01 — bigWig write/read round trip
 
 Models: `BBI.fileOf` (module `FileOf`) — the byte image the writer lays down for an input: chromosome ids in
@@ -131,3 +132,13 @@ theorem C01_source_section_cut (isLast : Bool) (n ips : Nat) :
   ⟨(gen_cut isLast n ips).1, (gen_cut isLast n ips).2, gen_cut_fits_u16 isLast n ips⟩
 
 end SectionCut
+
+namespace RT
+
+/-- **The code's own index-pruning predicate.** `Gen.overlaps` (regenerated from `overlaps` and the functions it calls in
+    bbiread.rs on every run) is, for all arguments, the `ov` with which the search theorems are stated; the full-span read of the round trip goes through that index. -/
+theorem C01_source_overlaps_is_the_models_ov (q qs qe b1 b1s b2 b2e : Nat) :
+    Gen.overlaps q qs qe b1 b1s b2 b2e = ov ⟨q, qs⟩ ⟨q, qe⟩ ⟨b1, b1s⟩ ⟨b2, b2e⟩ :=
+  gen_overlaps_eq_ov q qs qe b1 b1s b2 b2e
+
+end RT
